@@ -9,7 +9,7 @@ Definition is_observation (o : op) : bool :=
   | OBDescr _ | OBForge _ | OBDuration _ | OBPoints _ | OBLen _ | OBEq _ _
   | OEDescr _ | OEValidate _ | OEPoints _ | OEDuration _ | OESR _ | OEChannels _ | OEArrays _ _ | OEEq _ _
   | OSDescr _ | OSCheck _ | OSChannels _ | OSPoints _ | OSDuration _ | OSForge _ _ _ _ | OSAwg _ _ | OSSeqx _ _
-  | OSEq _ _ | OSLen _ => true
+  | OSEq _ _ | OSLen _ | OSSR _ => true
   | _ => false
   end.
 
